@@ -1,7 +1,6 @@
 package verifsim
 
 import (
-	"strings"
 	"bytes"
 	"context"
 	"encoding/binary"
@@ -10,6 +9,7 @@ import (
 	"net"
 	"sort"
 	"strconv"
+	"strings"
 	"sync"
 
 	"github.com/tsuna/gohbase/pb"
@@ -18,31 +18,32 @@ import (
 
 // Java class names used by the simulated cluster.
 const (
-	ExcNotServing    = "org.apache.hadoop.hbase.NotServingRegionException"
-	ExcRegionMoved   = "org.apache.hadoop.hbase.exceptions.RegionMovedException"
-	ExcRegionOpening = "org.apache.hadoop.hbase.exceptions.RegionOpeningException"
-	ExcTooBusy       = "org.apache.hadoop.hbase.RegionTooBusyException"
-	ExcQueueTooBig   = "org.apache.hadoop.hbase.CallQueueTooBigException"
-	ExcThrottling    = "org.apache.hadoop.hbase.quotas.RpcThrottlingException"
-	ExcAborted       = "org.apache.hadoop.hbase.regionserver.RegionServerAbortedException"
-	ExcStopped       = "org.apache.hadoop.hbase.regionserver.RegionServerStoppedException"
-	ExcWrongRegion   = "org.apache.hadoop.hbase.regionserver.WrongRegionException"
-	ExcDoNotRetry    = "org.apache.hadoop.hbase.DoNotRetryIOException"
+	ExcNotServing     = "org.apache.hadoop.hbase.NotServingRegionException"
+	ExcRegionMoved    = "org.apache.hadoop.hbase.exceptions.RegionMovedException"
+	ExcRegionOpening  = "org.apache.hadoop.hbase.exceptions.RegionOpeningException"
+	ExcTooBusy        = "org.apache.hadoop.hbase.RegionTooBusyException"
+	ExcQueueTooBig    = "org.apache.hadoop.hbase.CallQueueTooBigException"
+	ExcThrottling     = "org.apache.hadoop.hbase.quotas.RpcThrottlingException"
+	ExcAborted        = "org.apache.hadoop.hbase.regionserver.RegionServerAbortedException"
+	ExcStopped        = "org.apache.hadoop.hbase.regionserver.RegionServerStoppedException"
+	ExcWrongRegion    = "org.apache.hadoop.hbase.regionserver.WrongRegionException"
+	ExcDoNotRetry     = "org.apache.hadoop.hbase.DoNotRetryIOException"
 	ExcUnknownScanner = "org.apache.hadoop.hbase.UnknownScannerException"
-	ExcNoSuchCF      = "org.apache.hadoop.hbase.regionserver.NoSuchColumnFamilyException"
+	ExcNoSuchCF       = "org.apache.hadoop.hbase.regionserver.NoSuchColumnFamilyException"
 )
 
 // Region is one region of the simulated cluster.
 type Region struct {
-	Table  string // fully qualified
-	Start  []byte
-	Stop   []byte
-	ID     uint64
-	Name   []byte
-	Host   string
+	Table string // fully qualified
+	Start []byte
+	Stop  []byte
+	ID    uint64
+	Name  []byte
+	Host  string
 	// MetaHost, if non-empty, is what hbase:meta still reports while a move is in progress (the region is served at Host)
-	MetaHost string
-	Online   bool // false: split/merged away or table dropped
+	MetaHost    string
+	ReplicaHost string // non-empty: hbase:meta lists a secondary replica of the region there (info:server_0001 ...)
+	Online      bool   // false: split/merged away or table dropped
 	// transient unavailability: the next Flaps requests get exception FlapClass
 	Flaps     int
 	FlapClass string
@@ -81,12 +82,12 @@ func (t *Table) SortedKeys() [][]byte {
 
 // Directive is what a Rule tells the server to do with a request.
 type Directive struct {
-	Exc      string // answer with this Java exception class
-	Stack    string
-	Drop     bool // close the connection instead of answering
-	Silent   bool // never answer
-	Hold     chan struct{} // answer only after this is closed
-	Pass     bool // explicitly do nothing special
+	Exc    string // answer with this Java exception class
+	Stack  string
+	Drop   bool          // close the connection instead of answering
+	Silent bool          // never answer
+	Hold   chan struct{} // answer only after this is closed
+	Pass   bool          // explicitly do nothing special
 }
 
 // Rule lets a test override the behaviour for matching requests.
@@ -94,13 +95,13 @@ type Rule func(c *Cluster, rs *RS, sc *ServerConn, req *Request, regionName []by
 
 // RS is one regionserver (or master) address.
 type RS struct {
-	Addr       string
-	Up         bool
-	RefuseDial bool // dial attempts fail
+	Addr         string
+	Up           bool
+	RefuseDial   bool // dial attempts fail
 	DropOnAccept bool // accepts, then closes at once
-	conns      []*ServerConn
-	Dials      int
-	Accepts    int
+	conns        []*ServerConn
+	Dials        int
+	Accepts      int
 }
 
 // Cluster is the simulated HBase cluster.
@@ -132,6 +133,9 @@ type Cluster struct {
 	// Java exception class to answer with, "" to execute, or "DROP" to cut the connection without answering.
 	// It is called with the cluster lock held and must not call back into the cluster.
 	ActionHook func(rs *RS, r *Region, op string, row []byte) string
+	// ZeroScanID: the first region scanner opened on a user table gets the id 0
+	ZeroScanID   bool
+	zeroScanUsed bool
 	// the master (MasterService for the admin client) lives at MasterAddr; ZooKeeper names it for the "master" resource
 	MasterAddr  string
 	ProcPolls   int    // polls answered RUNNING before a procedure is FINISHED
